@@ -5,7 +5,7 @@ import os, re, sys, json, time, fcntl, random, hashlib, subprocess, traceback
 from pathlib import Path
 
 VERIF = Path('/verif')
-REPO = Path('/repo')
+REPO = Path(os.environ.get('VERIF_REPO', '/repo'))
 COQ = VERIF / 'coq'
 BUILD = VERIF / 'build'
 NPROC = int(os.environ.get('VERIF_JOBS', '16'))
